@@ -77,6 +77,8 @@ PLANS = {
                     dict(model="MC_Mech", quick="MC_Mech_quick.cfg", thorough="MC_Mech_thorough.cfg", workers=6)],
                 mcgen=[dict(model="MC_Arith", quick="MC_Arith_quick.cfg", thorough="MC_Arith_thorough.cfg")], drive=True),
     "C20": dict(configs=dict(quick=C20_CONFIGS[:4], thorough=C20_CONFIGS), drive=False, shard=2500,
+                cfg_mcgen=[dict(model="MC_ExpMech", template="MC_ExpMech.cfg.tmpl", max_precision=16,
+                                quick=dict(KMAX=5, POOL="small"), thorough=dict(KMAX=9, POOL="wide"))],
                 mc=[dict(model="MC_Fmt", quick="MC_Fmt_c17.cfg", thorough="MC_Fmt_quick.cfg"),
                     dict(model="MC_Round", quick="MC_Round_c20.cfg", thorough="MC_Round_quick.cfg")]),
     "C19": dict(
